@@ -168,6 +168,9 @@ func init() {
 			if other == nil {
 				continue
 			}
+			if cur, ok := f[field]; ok && treeEqual(cur, other) {
+				continue // the "different" value happens to be the current one
+			}
 			y := cloneTree(x).(T)
 			_, was := f[field]
 			y["f"].(T)[field] = other
@@ -201,7 +204,10 @@ func init() {
 					}
 					v1 := c09Other(cfg, c.R, goType, field)
 					v2 := c09Other(cfg, c.R, goType, field)
-					if v1 == nil || v2 == nil {
+					for tries := 0; tries < 5 && v1 != nil && v2 != nil && treeEqual(v1, v2); tries++ {
+						v2 = c09Other(cfg, c.R, goType, field) // the two values must differ
+					}
+					if v1 == nil || v2 == nil || treeEqual(v1, v2) {
 						continue
 					}
 					id := cfg.nextID("sys")
